@@ -56,6 +56,9 @@ func guardedNonNegative(b *ssa.BasicBlock, lin ssax.Lin) (bool, string) {
 		if ev.UnsignedSub {
 			continue // a guard that itself may wrap proves nothing
 		}
+		if ev.MinArithBits != 0 && ev.MinArithBits < 32 {
+			continue // sum computed in 8/16-bit arithmetic wraps for large fields: proves nothing about the 32-bit length
+		}
 		d := a.Sub(bb) // relation: d op 0
 		switch op {
 		case token.GEQ, token.GTR:
@@ -127,6 +130,8 @@ func runC11(c *core.Ctx) {
 	runR112(c)
 	// ---- R11.3
 	parserReturnPairs(c, "R11.3")
+	c.Rule("R11.5", "a request header is released to its pool by one owner only, on error paths too: otherwise one client's malformed or truncated input corrupts the header another connection is decoding", 2)
+	runR147(c, "R11.5", poolWrappers(c), "protocol")
 }
 
 // declaredTextLength: the value is (a conversion of) the first result of strconv.ParseUint.
